@@ -1267,6 +1267,11 @@ func decoderLoopConsumes(c *cx, id string, in func(f *eng.Fn) bool) int {
 						if s2, ok := ast.Unparen(cc.Fun).(*ast.SelectorExpr); ok && f.Norm(s2.X, nil) == dec {
 							found = true
 						}
+					case "encoding/xml.Encoder.EncodeToken":
+						// a copy loop: every token, the child's start element
+						// included, is written out again (the loop keeps its own
+						// depth count to find the parent's end)
+						found = true
 					default:
 						// the decoder handed to another function
 						for _, a := range cc.Args {
@@ -1305,7 +1310,7 @@ func decoderLoopConsumes(c *cx, id string, in func(f *eng.Fn) bool) int {
 						bad = "a non-error return at " + c.p.Pos(rs.Pos()) + " leaves a child element unconsumed"
 					}
 				}
-				c.r.Check(id, f, "child start element consumed in the token loop of "+dec, "E-dec3: every child start element met by a hand-written token loop is decoded or skipped before the next token is read", g.Blocks[ce.E.B].Nodes[len(g.Blocks[ce.E.B].Nodes)-1].Pos(), bad == "", bad)
+				c.r.Check(id, f, "child start element consumed in the token loop of "+dec, "E-dec3: every child start element met by a hand-written token loop is decoded, skipped or copied out before the next token is read", edgePos(g, f, ce.E.B), bad == "", bad)
 				// E-dec6: a return that may be nil from within a child's arm has
 				// consumed the child AND the rest of the parent (two consuming calls):
 				// `return d.Skip()` in the arm of the last expected child skips only
@@ -1351,7 +1356,7 @@ func decoderLoopConsumes(c *cx, id string, in func(f *eng.Fn) bool) int {
 							}
 						}
 					}
-					c.r.Check(id2, f, "no early success return from a child's arm in the token loop of "+dec, "E-dec6: a return that may be nil inside the arm of a child start element has consumed the child and the rest of the parent", g.Blocks[ce.E.B].Nodes[len(g.Blocks[ce.E.B].Nodes)-1].Pos(), bad2 == "", bad2)
+					c.r.Check(id2, f, "no early success return from a child's arm in the token loop of "+dec, "E-dec6: a return that may be nil inside the arm of a child start element has consumed the child and the rest of the parent", edgePos(g, f, ce.E.B), bad2 == "", bad2)
 				}
 			}
 		}
@@ -1461,7 +1466,7 @@ func decoderLoopVisitsEveryChild(c *cx, id string, in func(f *eng.Fn) bool) int 
 						bad = "the return at " + c.p.Pos(rs.Pos()) + " may end the loop with a nil error from inside a child's arm: the children behind it are never looked at"
 					}
 				}
-				c.r.Check(id, f, "the token loop ends at the end tag, not after a child", "E-dec7: inside the arm of a child start element no return may yield a nil error (every child is visited)", g.Blocks[ce.E.B].Nodes[len(g.Blocks[ce.E.B].Nodes)-1].Pos(), bad == "", bad)
+				c.r.Check(id, f, "the token loop ends at the end tag, not after a child", "E-dec7: inside the arm of a child start element no return may yield a nil error (every child is visited)", edgePos(g, f, ce.E.B), bad == "", bad)
 			}
 		}
 	}
@@ -1484,4 +1489,13 @@ func isStanzaHandler(f *eng.Fn) bool {
 		}
 	}
 	return false
+}
+
+// edgePos gives a position for reports about an edge out of block b (the
+// condition, when the block has one).
+func edgePos(g *eng.Graph, f *eng.Fn, b int) token.Pos {
+	if nodes := g.Blocks[b].Nodes; len(nodes) > 0 {
+		return nodes[len(nodes)-1].Pos()
+	}
+	return f.Pos()
 }
